@@ -21,12 +21,19 @@ SEND_KINDS = [("app", "D"), ("logon", FMsg.LOGON), ("logout", FMsg.LOGOUT), ("he
 OUT = MessageDirection.OUTBOUND
 
 
-def build_out(I, kname, mtype, k=""):
+def build_out(I, kname, mtype, k="", flags=True):
     m = FIXMessage(mtype)
     if kname == "app":
         # printable ASCII plus a Latin-1 and a Cyrillic letter (framing of non-ASCII text is C02's subject;
         # here: whatever the text, the number is allocated, sent and journaled - or nothing is)
         m.set(11, I.str(f"clord{k}", 1, 2, 32, 126, [(0xE9, 0xE9), (0x416, 0x416)]))
+        # an application may mark an original transmission explicitly (PossDupFlag=N, PossResend=N/Y):
+        # still a new message with a newly allocated number
+        fl = I.choice(f"dup_flags{k}", 4) if flags else 0
+        if fl in (1, 3):
+            m.set(43, "N")
+        if fl >= 2:
+            m.set(97, "Y" if fl == 2 else "N")
     elif kname == "logon":
         m.set(98, 0)
         m.set(108, 30)
@@ -119,7 +126,7 @@ def h_multi(I, n, digits):
         kind = I.choice(f"kind{k}", 3)
         try:
             if kind == 0:
-                run(c.send_msg(build_out(I, "app", "D", k)))
+                run(c.send_msg(build_out(I, "app", "D", k, flags=False)))
             elif kind == 1:
                 run(c.send_msg(FIXMessage(FMsg.HEARTBEAT)))
             else:
